@@ -161,12 +161,15 @@ class P:
         self.i += 1
         return tok
 
-    def skip_attrs(self):
+    def skip_attrs(self, strict=False):
         while self.at("#"):
             self.eat()
             if self.at("!"):
                 self.eat()
+            a = self.i
             self.skip_balanced("[", "]")
+            if strict and any(t[1] in ("cfg", "cfg_attr") for t in self.t[a:self.i]):
+                raise Unsupported("conditionally compiled statement, arm or parameter (#[cfg])")
 
     def skip_balanced(self, o, c):
         self.eat(o); d = 1
@@ -436,7 +439,7 @@ class P:
     def match_e(self):
         self.eat("match"); scr = self.cond_expr(); self.eat("{"); arms = []
         while not self.at("}"):
-            self.skip_attrs()
+            self.skip_attrs(strict=True)
             if self.at("|"): self.eat()
             p = self.pat()
             if self.at("|"):
@@ -467,7 +470,7 @@ class P:
     def block_(self):
         self.eat("{"); stmts = []; tail = None
         while not self.at("}"):
-            self.skip_attrs()
+            self.skip_attrs(strict=True)
             if self.at(";"):
                 self.eat(); continue
             if self.at("let"):
@@ -512,6 +515,8 @@ class P:
                 stmts.append(("expr", e)); continue
             raise Unsupported("parser: expected ; after expression, found %r" % self.peek()[1])
         self.eat("}")
+        # items declared in a block are in scope in the whole block: constants first
+        stmts = [x for x in stmts if x[0] == "const"] + [x for x in stmts if x[0] != "const"]
         return (stmts, tail)
 
 
@@ -522,7 +527,7 @@ def parse_fn(p, rel, impl=None, self_ty=None):
         raise Unsupported("generic function")
     p.eat("("); params = []
     while not p.at(")"):
-        p.skip_attrs()
+        p.skip_attrs(strict=True)
         if p.at("&"):
             # &self / &mut self
             p.eat()
@@ -598,6 +603,13 @@ def _split_pat(pat):
     return out
 
 
+def _group(kind, toks):
+    """an `expr` fragment is substituted as one operand: keep it grouped"""
+    if kind == "expr" and len(toks) > 1:
+        return [("op", "(")] + list(toks) + [("op", ")")]
+    return list(toks)
+
+
 def _match_frag(kind, args, ai, stop):
     """consume one fragment of the given kind; returns new index"""
     if kind in ("ident", "tt", "literal", "lifetime"):
@@ -625,7 +637,7 @@ def _match_elems(elems, args, ai, binds):
             ai += 1
         elif el[0] == "var":
             e = _match_frag(el[2], args, ai, stop)
-            binds[el[1]] = args[ai:e]; ai = e
+            binds[el[1]] = _group(el[2], args[ai:e]); ai = e
         else:
             inner, sep = el[1], el[2]
             reps = []
@@ -642,7 +654,7 @@ def _match_elems(elems, args, ai, binds):
                             if e >= len(args) or args[e][1] != ie[1]: raise Unsupported("x")
                             e += 1
                         elif ie[0] == "var":
-                            e2 = _match_frag(ie[2], args, e, st2); b[ie[1]] = args[e:e2]; e = e2
+                            e2 = _match_frag(ie[2], args, e, st2); b[ie[1]] = _group(ie[2], args[e:e2]); e = e2
                         else:
                             raise Unsupported("nested macro repetition")
                     ai = e
@@ -1052,6 +1064,29 @@ class Fn:
             return Fn.wrap(pre, "Panic")
         return Fn.wrap(pre, "Val %s" % atom(term))
 
+    # ---------- evaluation order
+    @staticmethod
+    def rebound(pre):
+        out = set()
+        for p_ in pre:
+            if p_[0] in ("bind", "let", "try", "tryres"):
+                out |= set(re.findall(r"[A-Za-z_][\w']*", p_[1]))
+        return out
+
+    def in_order(self, parts):
+        """parts = [(pre, term)] in Rust's evaluation order; a later part that re-binds a variable an earlier term reads
+        (a `&mut` argument, an assignment inside a block) must not change what the earlier term meant: snapshot it"""
+        pre, terms = [], []
+        for i, (p_, t_) in enumerate(parts):
+            rb = self.rebound(p_)
+            if rb:
+                for j in range(len(terms)):
+                    if set(re.findall(r"[A-Za-z_][\w']*", terms[j])) & rb:
+                        snap = self.fresh("snap")
+                        pre.append(("let", snap, terms[j])); terms[j] = snap
+            pre += p_; terms.append(t_)
+        return pre, terms
+
     # ---------- expressions: returns (pre, term, type)
     def e(self, x, env, want=None):
         k = x[0]
@@ -1150,8 +1185,10 @@ class Fn:
         if k == "tuple":
             pre, ts, tys = [], [], []
             wl = want[1] if isinstance(want, tuple) and want[0] == "tup" else [None] * len(x[1])
+            parts = []
             for sub, w in zip(x[1], wl):
-                p, a, t = self.e(sub, env, w); pre += p; ts.append(a); tys.append(t)
+                p, a, t = self.e(sub, env, w); parts.append((p, a)); tys.append(t)
+            pre, ts = self.in_order(parts)
             return pre, "(" + ", ".join(ts) + ")", ("tup", tuple(tys))
         if k == "bin":
             return self.binop(x, env, want)
@@ -1193,6 +1230,8 @@ class Fn:
             r = self.fresh()
             return [("let" if pure else "bind", r, code)], r, t
         if k == "macro":
+            if x[1] in REDEFINED_MACROS:
+                raise Unsupported("macro %s! is redefined in this crate" % x[1])
             if x[1] in ("panic", "unreachable", "unimplemented", "todo"):
                 return [("panic",)], "tt", want if want is not None else TVar()
             raise Unsupported("macro %s! in expression" % x[1])
@@ -1219,26 +1258,28 @@ class Fn:
             if resolve(tl) is None and resolve(tr) is not None:
                 pl, l, tl = self.e(x[2], env, tr)
             t = unify(tl, tr)
+            pre_, (l, r) = self.in_order([(pl, l), (pr, r)])
             if resolve(t) == "bool":
                 s = "Bool.eqb %s %s" % (atom(l), atom(r))
-                if op == "==": return pl + pr, "(%s)" % s, "bool"
-                if op == "!=": return pl + pr, "(negb (%s))" % s, "bool"
+                if op == "==": return pre_, "(%s)" % s, "bool"
+                if op == "!=": return pre_, "(negb (%s))" % s, "bool"
                 raise Unsupported("ordering of bools")
             if not is_int(t):
                 raise Unsupported("comparison of non-integers")
             if op == "!=":
-                return pl + pr, "(negb (%s =? %s))" % (atom(l), atom(r)), "bool"
-            return pl + pr, "(%s %s %s)" % (atom(l), cmpops[op], atom(r)), "bool"
+                return pre_, "(negb (%s =? %s))" % (atom(l), atom(r)), "bool"
+            return pre_, "(%s %s %s)" % (atom(l), cmpops[op], atom(r)), "bool"
         if op in ("<<", ">>"):
             pl, l, tl = self.e(x[2], env, want)
             pr, r, tr = self.e(x[3], env, None)
             tlr = resolve(tl)
+            pre_, (l, r) = self.in_order([(pl, l), (pr, r)])
             if op == ">>" and x[3][0] == "lit" and tlr in INT_TYPES and 0 <= x[3][1] < INT_TYPES[tlr][0] \
                     and not INT_TYPES[tlr][1]:
-                return pl + pr, "(Z.shiftr %s %s)" % (atom(l), atom(r)), tl
+                return pre_, "(Z.shiftr %s %s)" % (atom(l), atom(r)), tl
             t = self.fresh()
             f = "ck_shl" if op == "<<" else "ck_shr"
-            return pl + pr + [("bind", t, "%s pf %s %s %s" % (f, tyname(tl), atom(l), atom(r)))], t, tl
+            return pre_ + [("bind", t, "%s pf %s %s %s" % (f, tyname(tl), atom(l), atom(r)))], t, tl
         pl, l, tl = self.e(x[2], env, want)
         pr, r, tr = self.e(x[3], env, tl if resolve(tl) is not None else want)
         if resolve(tl) is None and resolve(tr) is not None:
@@ -1247,20 +1288,24 @@ class Fn:
         if resolve(t) is None and x[2][0] in ("lit", "paren", "bin") and x[3][0] in ("lit", "paren", "bin"):
             # literal arithmetic, evaluated by the compiler
             return [], num(const_eval(x, {})), None
+        pre_, (l, r) = self.in_order([(pl, l), (pr, r)])
+        return self.arith(op, pre_, l, r, t)
+
+    def arith(self, op, pre_, l, r, t):
         if op in ("&", "|", "^"):
             if resolve(t) == "bool":
                 raise Unsupported("non-short-circuit boolean operator")
             f = {"&": "Z.land", "|": "Z.lor", "^": "Z.lxor"}[op]
-            return pl + pr, "(%s %s %s)" % (f, atom(l), atom(r)), t
+            return pre_, "(%s %s %s)" % (f, atom(l), atom(r)), t
         if not is_int(t):
             raise Unsupported("arithmetic on non-integers")
         tmp = self.fresh()
         if op in ("+", "-", "*"):
             f = {"+": "ck_add", "-": "ck_sub", "*": "ck_mul"}[op]
-            return pl + pr + [("bind", tmp, "%s pf %s %s %s" % (f, tyname(t), atom(l), atom(r)))], tmp, t
+            return pre_ + [("bind", tmp, "%s pf %s %s %s" % (f, tyname(t), atom(l), atom(r)))], tmp, t
         if op in ("/", "%"):
             f = {"/": "t_div", "%": "t_rem"}[op]
-            return pl + pr + [("bind", tmp, "%s %s %s %s" % (f, tyname(t), atom(l), atom(r)))], tmp, t
+            return pre_ + [("bind", tmp, "%s %s %s %s" % (f, tyname(t), atom(l), atom(r)))], tmp, t
         raise Unsupported("operator %s" % op)
 
     def call(self, x, env, want):
@@ -1352,6 +1397,10 @@ class Fn:
             else:
                 pp, t, ty = self.e(a, env, pt)
                 unify(ty, pt)
+                if self.rebound(pp):
+                    for j_ in range(len(args)):
+                        if set(re.findall(r"[A-Za-z_][\w']*", args[j_])) & self.rebound(pp):
+                            snap = self.fresh("snap"); pre.append(("let", snap, args[j_])); args[j_] = snap
                 pre += pp; args.append(atom(t))
         r = self.fresh()
         head = "%s pf" % coq_name(name) + (" dflt" if name in self.uses_dflt else "")
@@ -1465,6 +1514,8 @@ class Fn:
             raise Unsupported("empty value block")
         if contains_jump(blk):
             raise Unsupported("return/break/? inside a value block")
+        if set(assigned(blk)) & set(env):
+            raise Unsupported("a block used for its value assigns an outer variable")
         env = dict(env)
         holder = {}
 
@@ -1579,10 +1630,15 @@ class Fn:
             if lhs[0] != "path" or len(lhs[1]) != 1 or lhs[1][0] not in env:
                 raise Unsupported("assignment target")
             name = lhs[1][0]
-            ex = rhs if op == "=" else ("bin", op[:-1], ("path", [name]), rhs)
             vt = env[name]
             if isinstance(vt, tuple) and vt[0] == "mutref": vt = vt[1]
-            pre, a, t = self.e(ex, env, vt)
+            if op != "=" and op[:-1] in ("+", "-", "*", "/", "%", "&", "|", "^") :
+                # `a op= e` on a primitive: e is evaluated first, then a is read
+                pr_, r_, tr_ = self.e(rhs, env, vt)
+                pre, a, t = self.arith(op[:-1], list(pr_), self.v(name), r_, unify(vt, tr_))
+            else:
+                ex = rhs if op == "=" else ("bin", op[:-1], ("path", [name]), rhs)
+                pre, a, t = self.e(ex, env, vt)
             unify(t, vt)
             code, pure = rest(env)
             return self.bind_to(pre, a, self.v(name), code), pure and not pre
@@ -1633,6 +1689,8 @@ class Fn:
 
     def macro_stmt(self, ex, env, rest):
         name, inner = ex[1], ex[2]
+        if name in REDEFINED_MACROS:
+            raise Unsupported("macro %s! is redefined in this crate" % name)
         if name in ("debug_assert", "debug_assert_ne", "debug_assert_eq", "assert", "assert_ne", "assert_eq"):
             p = P(list(inner) + [("eof", "")])
             a = p.expr()
@@ -2339,7 +2397,31 @@ def generate(targets, file_consts, out_path, header, unit, base=None):
     return status, (fns, {k: v for k, v in sigs.items() if k in ok}, uses, fconsts)
 
 
+BUILTIN_MACROS = {"assert", "assert_eq", "assert_ne", "debug_assert", "debug_assert_eq", "debug_assert_ne", "panic",
+                  "unreachable", "unimplemented", "todo", "matches"}
+REDEFINED_MACROS = set()
+
+
+def scan_redefined_macros():
+    """a crate that defines its own `debug_assert!` (or any other macro the translation gives a fixed meaning) changes that
+    meaning: functions that use it are then outside the subset"""
+    for base in ("src", "fpdec-core/src", "fpdec-macros/src"):
+        for d, _, names in os.walk(os.path.join(REPO, base)):
+            for nm in names:
+                try:
+                    txt = strip_comments(open(os.path.join(d, nm), encoding="utf-8").read())
+                except (OSError, UnicodeDecodeError):
+                    continue
+                for m in re.finditer(r"\bmacro_rules!\s*(\w+)", txt):
+                    if m.group(1) in BUILTIN_MACROS:
+                        REDEFINED_MACROS.add(m.group(1))
+                for m in re.finditer(r"\buse\s+[\w:]*::(\w+)\s+as\s+(\w+)\s*;", txt):
+                    if m.group(2) in BUILTIN_MACROS:
+                        REDEFINED_MACROS.add(m.group(2))
+
+
 def main():
+    scan_redefined_macros()
     hdr_core = ["(* GENERATED by tools/rs2v.py from /repo's current source - do not edit.  One definition per Rust function",
                 "   of the integer kernels of fpdec-core; proofs/GenTie*.v prove each equal to the hand-written model. *)",
                 "From FP Require Import Machine.", "",
